@@ -41,7 +41,7 @@ FUNCTIONS = ['polynomial.compare', 'Polynomial.__add__/__radd__/__mul__/__rmul__
 ASSUMPTIONS = ['integer coefficients (CrossHair) / real coefficients (fork mode); operand shapes are enumerated',
                'variable names in compare are represented by symbolic integers: that Python string order is a total order like the integers\' is the one trusted fact',
                'inputs satisfy the class invariant (no stored zero coefficient, monomials sorted)']
-BOUNDS = {'quick': 'about 300 harnesses: operands with <=3 monomials over {a,b,c}, degree <=2; per-condition timeout 40 s; chains n<=24 / range n<=12; tosympy on 150 random polynomials; fork mode on 120 shapes',
+BOUNDS = {'quick': '150 operand-shape pairs harvested from real code generation (fork mode); about 300 harnesses: operands with <=3 monomials over {a,b,c}, degree <=2; per-condition timeout 40 s; chains n<=24 / range n<=12; tosympy on 150 random polynomials; fork mode on 120 shapes',
           'thorough': 'about 1000 harnesses, timeout 90 s, chains n<=40 / n<=16'}
 OUTSIDE = ['float coefficients (division by a number produces floats such as 1/3)', 'operand shapes larger than the bound']
 OPTS = {'rlimit': 100_000_000, 'canary_every': 10, 'max_paths': 400, 'max_depth': 200}
@@ -77,7 +77,73 @@ def cases(tier, seed):
         DB = DA if rng.random() < 0.5 else rng.choice(dens)
         out.append(dict(kind='fork-rat', op=rng.choice(['+', '-', '*', '/']), NA=[list(x) for x in NA], DA=[list(x) for x in DA],
                         NB=[list(x) for x in NB], DB=[list(x) for x in DB], fork=True))
+    # shapes harvested from kingdon's own code generation (sw, proj, inv, div, normsq, outer series in 2-D / 3-D):
+    # the operand shapes that really occur, with their +-1/+-2 coefficients generalised to symbolic reals
+    H = harvest_shapes()
+    rng.shuffle(H)
+    nh = 150 if tier == 'quick' else 1500
+    for kind, A, B in H[:nh]:
+        out.append(dict(kind='fork-poly', op=kind, A=[list(x) for x in A], B=[list(x) for x in B], fork=True, harvested=True))
     return out
+
+
+_HARVEST = None
+
+
+def harvest_shapes(max_terms=6, max_total=9):
+    """record (operator, operand shapes) of Polynomial + and * during real code generation."""
+    global _HARVEST
+    if _HARVEST is not None:
+        return list(_HARVEST)
+    import warnings
+    import kingdon.polynomial as P
+    from kingdon import Algebra
+    rec = set()
+    o_add, o_mul = P.Polynomial.__add__, P.Polynomial.__mul__
+
+    def shape(p):
+        try:
+            return tuple(tuple(m[1:]) for m in p.args)
+        except Exception:
+            return None
+
+    def add(self, other):
+        if isinstance(other, P.Polynomial):
+            a, b = shape(self), shape(other)
+            if a and b and len(a) <= max_terms and len(b) <= max_terms and len(a) + len(b) <= max_total and all(isinstance(v, str) for m in a + b for v in m):
+                rec.add(('+', a, b))
+        return o_add(self, other)
+
+    def mul(self, other):
+        if isinstance(other, P.Polynomial):
+            a, b = shape(self), shape(other)
+            if a and b and len(a) * len(b) <= 12 and all(isinstance(v, str) for m in a + b for v in m):
+                rec.add(('*', a, b))
+        return o_mul(self, other)
+
+    P.Polynomial.__add__, P.Polynomial.__mul__ = add, mul
+    try:
+        with warnings.catch_warnings():
+            warnings.simplefilter('ignore')
+            for sig, pats_ in (((2, 0, 0), [(1, 2), (0, 3), (0, 1, 2, 3), (3,)]), ((1, 1, 0), [(1, 2), (0, 3)]), ((2, 0, 1), [(1, 2, 4), (3, 5, 6), (0, 3, 5, 6)]),
+                               ((3, 0, 0), [(1, 2, 4), (0, 3, 5, 6)])):
+                alg = Algebra(*sig)
+                for ka in pats_:
+                    for kb in pats_[:2]:
+                        for op in ('sw', 'proj', 'div'):
+                            try:
+                                getattr(alg, op)[ka, kb]
+                            except Exception:
+                                pass
+                    for op in ('inv', 'normsq', 'outerexp', 'outertan'):
+                        try:
+                            getattr(alg, op)[ka]
+                        except Exception:
+                            pass
+    finally:
+        P.Polynomial.__add__, P.Polynomial.__mul__ = o_add, o_mul
+    _HARVEST = sorted(rec)
+    return list(_HARVEST)
 
 
 # --------------------------------------------------------------------------- dictionary model on arbitrary ring values
